@@ -52,6 +52,39 @@ enum {
 	/* explicit-order atomics (lib/atomic_int.h): obj = address, b = enum qb_atomic_model actually requested */
 	QB_VP_ATOMIC_LOAD = 300,
 	QB_VP_ATOMIC_STORE,		/* a = value about to be stored */
+
+	/* lib/log_thread.c -- logging thread (obj, a, b as noted) */
+	QB_VP_LOGT_W_WAIT = 400,	/* about to sem_wait (obj = the semaphore) */
+	QB_VP_LOGT_W_WOKEN,		/* sem_wait returned; about to lock (obj = the semaphore) */
+	QB_VP_LOGT_W_LOCKED,		/* lock held; about to evaluate the exit test (obj = lock, a = should_exit) */
+	QB_VP_LOGT_W_EXIT,		/* decided to exit; about to unlock and exit (obj = lock, a = should_exit, b = semaphore value) */
+	QB_VP_LOGT_W_DEQUEUE,		/* decided to go on; about to dequeue (obj = queue head, a = memory_used, b = dropped) */
+	QB_VP_LOGT_W_WRITE,		/* dequeued, un-accounted, loss reported; about to write (obj = &memory_used, a = memory_used, b = reported) */
+	QB_VP_LOGT_W_UNLOCK,		/* written; about to unlock and free (obj = lock) */
+	/* qb_log_thread_log_post */
+	QB_VP_LOGT_P_LOCK,		/* about to lock (obj = lock, a = record size) */
+	QB_VP_LOGT_P_LOCKED,		/* lock held; about to account (obj = &memory_used, a = record size, b = dropped) */
+	QB_VP_LOGT_P_APPEND,		/* within the limit; about to append (obj = queue head, a = memory_used) */
+	QB_VP_LOGT_P_DROP,		/* over the limit; about to drop (obj = &memory_used, a = memory_used, b = dropped) */
+	QB_VP_LOGT_P_UNLOCK,		/* appended; about to unlock (obj = lock, a = memory_used) */
+	QB_VP_LOGT_P_UNLOCK_DROP,	/* dropped; about to unlock and return (obj = lock, a = memory_used, b = dropped) */
+	QB_VP_LOGT_P_POST,		/* about to sem_post (obj = the semaphore) */
+	QB_VP_LOGT_P_POSTED,		/* sem_post done (obj = the semaphore) */
+	/* qb_log_thread_pause / qb_log_thread_resume */
+	QB_VP_LOGT_C_PAUSE,		/* about to lock (obj = lock, a = target) */
+	QB_VP_LOGT_C_PAUSED,		/* lock held (obj = lock, a = target) */
+	QB_VP_LOGT_C_RESUME,		/* about to unlock (obj = lock, a = target) */
+	/* qb_log_thread_stop with a running thread */
+	QB_VP_LOGT_S_LOCK,		/* about to lock (obj = lock) */
+	QB_VP_LOGT_S_LOCKED,		/* lock held; about to set the exit flag (obj = lock) */
+	QB_VP_LOGT_S_UNLOCK,		/* flag set; about to unlock (obj = lock) */
+	QB_VP_LOGT_S_POST,		/* about to sem_post (obj = the semaphore) */
+	QB_VP_LOGT_S_POSTED,		/* sem_post done (obj = the semaphore) */
+	QB_VP_LOGT_S_JOIN,		/* about to join the logging thread */
+	QB_VP_LOGT_S_JOINED,		/* joined; about to destroy lock and semaphores (obj = lock) */
+	/* qb_log_thread_start */
+	QB_VP_LOGT_T_CREATED,		/* the logging thread was created; about to wait for its start signal (obj = lock) */
 };
+
 
 #endif /* QB_VERIF_HOOK_H_DEFINED */
